@@ -29,7 +29,7 @@ MkData(e) == [n \in {"D"} \cup SToSet(e.graphs) \cup {e.quads[i][4] : i \in 1..L
 
 Ctx(s, cf) == [D |-> s.D, active |-> IF cf.union_default THEN DUnion(s.D) ELSE DGet(s.D, "D"), ord |-> cf.ord,
                dev |-> "KF_C04_pushdown" \in Devs, dev2 |-> "KF_C04_values_leftjoin" \in Devs,
-               union |-> cf.union_default, dev3 |-> FALSE]
+               union |-> cf.union_default, dev3 |-> FALSE, init |-> EmptyMu]
 
 (* ---- sub-bags and slices ----------------------------------------------------------- *)
 SubBag(R, Om) == \A x \in SToSet(R) : Count(R, x) <= Count(Om, x)
@@ -100,8 +100,15 @@ ConstructSet(q, Om) ==
 
 QWithInit(q, e) == IF Has(e, "init") THEN [q EXCEPT !.where = [elts |-> <<[t |-> "group", g |-> q.where], [t |-> "values", vars |-> e.init.vars, rows |-> e.init.rows]>>]] ELSE q
 
-QueryVerdict(q0, e, c) ==
-  LET q == QWithInit(q0, e)  r == e.res IN
+(* KF_C15_init_everywhere: initBindings are not joined like a VALUES row but pre-bound in every scope of the query
+   (also inside MINUS and nested groups), so the right-hand side of a MINUS shares them with the left-hand side *)
+InitMu(e) == [v \in {e.init.vars[j] : j \in {i \in 1..Len(e.init.vars) : e.init.rows[1][i].k # "undef"}} |->
+                e.init.rows[1][CHOOSE j \in 1..Len(e.init.vars) : e.init.vars[j] = v]]
+QueryVerdict0(q0, e, c0) ==
+  LET dv == Has(e, "init") /\ "KF_C15_init_everywhere" \in Devs
+      q  == IF dv THEN q0 ELSE QWithInit(q0, e)
+      c  == IF dv THEN [c0 EXCEPT !.init = InitMu(e)] ELSE c0
+      r  == e.res IN
   IF r.k = "raise" THEN "QueryRaised"
   ELSE IF r.k = "timeout" THEN "Terminates"
   ELSE IF q.form = "ask" THEN (IF r.v = (Len(EvalGroup(q.where, c, EmptyMu)) > 0) THEN "ok" ELSE "AskAgrees")
@@ -130,6 +137,7 @@ QueryVerdict(q0, e, c) ==
 
 (* KF_C11_neg_inverse: negated property sets with inverse members follow paths.py's pinned behaviour (pinned by a
    doctest in rdflib/paths.py) through the API, and raise "Invalid path in NegatedPath" through SPARQL *)
+QueryVerdict(q0, e, c) == QueryVerdict0(q0, e, c)
 PathDev(e) == "KF_C11_neg_inverse" \in Devs /\ HasNegInv(e.p)
 PathVerdict(s, e) ==
   LET G == DGet(s.D, "D")  r == e.res IN
